@@ -12,6 +12,10 @@ import MM.Model.C08
     clean <maxAge>                                                      -> <removed> ; dump
     look <ip>                                                           -> none | route <entry>
     get <ip> <ones> <bits>                                              -> none | route <entry>
+    lookall <ip>                                                        -> routes <entry>*   (Table.LookupAll)
+    has <ip> <ones> <bits> <origin>                                     -> true|false
+    size                                                                -> size <keys> <routes>
+    clear                                                               -> ok ; empty
 
   <ip> hex bytes, <path> `-` or `a.b.c`; dump = groups sorted by label, `G<label> E<entry> E<entry> …`,
   entry = `ip/ones/bits,nextHop,origin,metric,seq,path,age`.
@@ -108,6 +112,16 @@ def step (st : St) (line : String) : St × String :=
     match parseNet ip ones bits with
     | none => (st, "bad-op")
     | some n => (st, showOpt now (best t (cidrKey n)))
+  | ["lookall", ip] =>
+    match parseIP ip with
+    | none => (st, "bad-op")
+    | some a => (st, " ".intercalate ("routes" :: (lookupAll t a).map (showEntry now)))
+  | ["has", ip, ones, bits, orig] =>
+    match parseNet ip ones bits with
+    | none => (st, "bad-op")
+    | some n => (st, toString (hasRoute t (cidrKey n) (natTok orig)))
+  | ["size"] => (st, s!"size {size t} {totalRoutes t}")
+  | ["clear"] => ({ st with s := ⟨now, []⟩ }, "ok ; empty")
   | _ => (st, "bad-op")
 
 /-! ### `spec`: the statement of C08 evaluated on the implementation's own answers -/
@@ -150,6 +164,26 @@ def specLookup (tab : List (Entry IPNet)) (ip : IPAddr) (answer : List String) :
       else "ok"
   | _ => "fail unparsable-answer"
 
+/-- `LookupAll`: every answer is stored and contains the address, prefix lengths strictly decrease,
+    each answer is the cheapest stored route of its prefix length containing the address, and every
+    stored route containing the address has its prefix length represented. -/
+def specLookAll (tab : List (Entry IPNet)) (ip : IPAddr) (answer : List String) : String :=
+  match answer with
+  | "routes" :: toks =>
+    match toks.mapM parseEntry with
+    | none => "fail unparsable-answer"
+    | some rs =>
+      let hits := tab.filter (fun e => contains e.pay ip)
+      if rs.any (fun r => !tab.contains r) then "fail lookall-not-stored"
+      else if rs.any (fun r => !contains r.pay ip) then "fail lookall-not-containing"
+      else if !(rs.zip (rs.drop 1)).all (fun ab => decide (plen ab.1.pay > plen ab.2.pay)) then
+        "fail lookall-not-longest-first"
+      else if rs.any (fun r => hits.any (fun e => plen e.pay == plen r.pay && decide (e.metric < r.metric))) then
+        "fail lookall-not-lowest-metric"
+      else if hits.any (fun e => !rs.any (fun r => plen r.pay == plen e.pay)) then "fail lookall-missed"
+      else "ok"
+  | _ => "fail unparsable-answer"
+
 def specStep (tab : List (Entry IPNet)) (l : String) : List (Entry IPNet) × String :=
   match l.splitOn "\t" with
   | [op, out] =>
@@ -160,7 +194,13 @@ def specStep (tab : List (Entry IPNet)) (l : String) : List (Entry IPNet) × Str
         match parseIP ip with
         | some a => (tab, specLookup tab a (tokens out))
         | none => (tab, "bad-op")
+      | ["lookall", ip] =>
+        match parseIP ip with
+        | some a => (tab, specLookAll tab a (tokens out))
+        | none => (tab, "bad-op")
       | ["get", _, _, _] => (tab, "ok")
+      | ["has", _, _, _, _] => (tab, "ok")
+      | ["size"] => (tab, "ok")
       | _ => match parseDump out with
         | some d => (d, "ok")
         | none => (tab, "fail unparsable-dump")
